@@ -151,6 +151,8 @@ struct SimEngineInner {
     crash: Option<Crash>,
     crashed: AtomicBool,
     bad_store_request: Mutex<Option<String>>,
+    /// while true, block writes do not complete (storage lags behind consensus)
+    stall: sync::watch::Sender<bool>,
 }
 
 #[derive(Clone)]
@@ -178,7 +180,20 @@ impl SimEngine {
             crash: None,
             crashed: AtomicBool::new(false),
             bad_store_request: Mutex::new(None),
+            stall: sync::watch::channel(false).0,
         }))
+    }
+    /// Block writes stop / resume completing.
+    pub fn set_stalled(&self, on: bool) {
+        self.0.stall.send_replace(on);
+    }
+    /// The durable image as it is now (what a restart would find).
+    pub fn durable_local(&self) -> Local {
+        let blocks: Vec<v2::FinalBlock> = self.0.blocks.lock().unwrap().iter().filter_map(|b| match b {
+            validator::Block::FinalV2(f) => Some(f.clone()),
+            _ => None,
+        }).collect();
+        Local { durable: self.0.state.lock().unwrap().clone(), blocks, ..Local::initial() }.restarted()
     }
     pub fn stored_blocks(&self) -> usize {
         self.0.blocks.lock().unwrap().len()
@@ -201,6 +216,7 @@ impl SimEngine {
             crash: None,
             crashed: AtomicBool::new(false),
             bad_store_request: Mutex::new(None),
+            stall: sync::watch::channel(false).0,
         }))
     }
 }
@@ -224,7 +240,8 @@ impl EngineInterface for SimEngine {
         let b = self.0.blocks.lock().unwrap();
         Ok(b.get(number.0.checked_sub(first).ok_or_else(|| anyhow::format_err!("not found"))? as usize).cloned().ok_or_else(|| anyhow::format_err!("not found"))?)
     }
-    async fn queue_next_block(&self, _ctx: &ctx::Ctx, block: validator::Block) -> ctx::Result<()> {
+    async fn queue_next_block(&self, ctx: &ctx::Ctx, block: validator::Block) -> ctx::Result<()> {
+        sync::wait_for(ctx, &mut self.0.stall.subscribe(), |stalled| !*stalled).await?;
         let mut b = self.0.blocks.lock().unwrap();
         let want = self.0.genesis.first_block.0 + b.len() as u64;
         if block.number().0 != want {
@@ -299,6 +316,7 @@ pub fn step(w: &World, idx: usize, local: &Local, input: &Input, policy: &Policy
         crash: policy.crash,
         crashed: AtomicBool::new(false),
         bad_store_request: Mutex::new(None),
+            stall: sync::watch::channel(false).0,
     }));
     let eng2 = eng.clone();
     let key = w.c.keys[idx].clone();
@@ -506,8 +524,23 @@ pub struct RunLoopsOut {
 /// nothing else can happen. Progress = every node stores a block it did not have at the start.
 /// Runs under the controlled scheduler with the choice sequence of `ch`.
 pub fn run_loops(ch: &core::Ch, w: &World, nodes: &[(usize, Local)], max_rounds: u32) -> RunLoopsOut {
+    run_loops_with(ch, w, nodes, max_rounds, false).0
+}
+
+/// The adversarial prefix "storage lags, then every node crashes": the real loops run with block
+/// writes stalled until nothing can happen any more, then all processes die. Returns the durable
+/// images the restarted nodes will find.
+pub fn stalled_storage_then_crash(ch: &core::Ch, w: &World, nodes: &[(usize, Local)]) -> Vec<(usize, Local)> {
+    let (_, locals) = run_loops_with(ch, w, nodes, 0, true);
+    nodes.iter().map(|(i, _)| *i).zip(locals).collect()
+}
+
+fn run_loops_with(ch: &core::Ch, w: &World, nodes: &[(usize, Local)], max_rounds: u32, stalled: bool) -> (RunLoopsOut, Vec<Local>) {
     use zksync_consensus_network::io::{ConsensusInputMessage, ConsensusReq};
     let engines: Vec<SimEngine> = nodes.iter().map(|(_, l)| SimEngine::from_local(w, l)).collect();
+    for e in &engines {
+        e.set_stalled(stalled);
+    }
     let stored_at_start: Vec<usize> = engines.iter().map(|e| e.stored_blocks()).collect();
     let engines2 = engines.clone();
     let start2 = stored_at_start.clone();
@@ -578,6 +611,10 @@ pub fn run_loops(ch: &core::Ch, w: &World, nodes: &[(usize, Local)], max_rounds:
                     if engines2.iter().zip(start2.iter()).all(|(e, s)| e.stored_blocks() > *s) {
                         return Ok((true, rounds, String::new()));
                     }
+                    if stalled {
+                        // first quiescent point of the stalled prefix: everybody dies here
+                        return Ok((false, rounds, "stalled prefix ended".into()));
+                    }
                     // block sync: a node that lacks a block some other node has gets it
                     let mut synced = false;
                     for j in 0..n {
@@ -612,5 +649,6 @@ pub fn run_loops(ch: &core::Ch, w: &World, nodes: &[(usize, Local)], max_rounds:
         let (ok, rounds, why) = r.unwrap_or_else(|e| (false, 0, format!("scope error: {e:?}")));
         (ok, rounds, why, routed.load(SeqCst))
     });
-    RunLoopsOut { ok, rounds, why, messages_routed: routed, stored_at_start, stored_at_end: engines.iter().map(|e| e.stored_blocks()).collect(), views_at_end: engines.iter().map(|e| e.durable_view()).collect() }
+    let locals = engines.iter().map(|e| e.durable_local()).collect();
+    (RunLoopsOut { ok, rounds, why, messages_routed: routed, stored_at_start, stored_at_end: engines.iter().map(|e| e.stored_blocks()).collect(), views_at_end: engines.iter().map(|e| e.durable_view()).collect() }, locals)
 }
